@@ -309,6 +309,7 @@ pub fn child_main() -> ! {
     ahash::random_state::set_random_source(SimSource).ok();
 
     // scheduler + hook seams
+    rayon_core::sim::activate();
     rayon_core::sim::CORES.store(cores.max(1), Ordering::Relaxed);
     HOOK_MASK.store(hooks, Ordering::Relaxed);
     DM_STATE.store(seed ^ 0xDA54_4A90, Ordering::Relaxed);
